@@ -218,7 +218,7 @@ func runEncoding(e *Enc, fn *ssa.Function, props []string) {
 		if i == 0 && fn.Signature.Recv() != nil {
 			continue
 		}
-		if f.implicitNonNil(fn, p.Type()) {
+		if f.implicitNonNil(fn, p.Type()) && !nilOK(sp, p.Name()) {
 			if t := f.vals[p]; t.Sort == SInt {
 				reach = and(reach, not(eq(t, intLit(0))))
 			} else if t.Sort == SIface {
@@ -294,23 +294,15 @@ func runEncoding(e *Enc, fn *ssa.Function, props []string) {
 			}
 		}
 	}
-	// mutators restore the type invariants of their pointer parameters
+	// K7: every object of a type with a declared invariant that this function
+	// allocated or stored into satisfies the invariant when the function returns
 	for i, r := range f.rets {
-		for _, p := range fn.Params {
-			_, stT, ok := isStructPtr(p.Type())
-			if !ok {
-				continue
-			}
-			n, isNamed := stT.(*types.Named)
-			if !isNamed || n.Obj().Pkg() == nil {
-				continue
-			}
+		for _, tr := range e.touched {
+			_, stT, _ := isStructPtr(tr.typ)
+			n := stT.(*types.Named)
 			key := n.Obj().Pkg().Name() + "." + n.Obj().Name()
-			if !P.isMutator(fn, key) {
-				continue
-			}
 			for _, inv := range P.Specs.TypeInvs[key] {
-				env := &SpecEnv{f: f, names: map[string]Term{"self": f.vals[p]}, types: map[string]types.Type{"self": p.Type()}, cur: r.state, old: e.oldState, pkg: n.Obj().Pkg()}
+				env := &SpecEnv{f: f, names: map[string]Term{"self": tr.ref}, types: map[string]types.Type{"self": tr.typ}, cur: r.state, old: e.oldState, pkg: n.Obj().Pkg()}
 				f.noInv = true
 				t, err := env.evalBool(inv.Expr)
 				f.noInv = false
@@ -318,21 +310,25 @@ func runEncoding(e *Enc, fn *ssa.Function, props []string) {
 					e.specError("wf %s: %v", key, err)
 					continue
 				}
-				e.addOblig("wf", fmt.Sprintf("%s restored for %s: %s @return%d", key, p.Name(), inv.Text, i+1), f.props, P.position(r.instr.Pos()), r.reach, t)
+				name := fmt.Sprintf("%s holds at return for the object %s (%s): %s", key, tr.how, strings.TrimPrefix(tr.ref.S, f.pfx), inv.Text)
+				if len(f.rets) > 1 {
+					name += fmt.Sprintf(" @return%d", i+1)
+				}
+				e.addOblig("wf", name, f.props, P.position(r.instr.Pos()), r.reach, t)
 			}
 		}
 	}
 	// explicit panics
 	for _, p := range f.panics {
 		goal := tFalse
-		if sp != nil && sp.MayPanic != "" {
-			if cls := P.Specs.PanicClasses[sp.MayPanic]; cls != nil {
+		if mp := P.mayPanicClass(fn); mp != "" {
+			if cls := P.Specs.PanicClasses[mp]; cls != nil {
 				env := &SpecEnv{f: f, names: map[string]Term{"value": p.val}, types: map[string]types.Type{"value": types.NewInterfaceType(nil, nil)}, cur: p.state, old: e.oldState}
 				t, err := env.evalBool(cls.Expr)
 				if err == nil {
 					goal = t
 				} else {
-					e.specError("%s: panicclass %s: %v", e.Key, sp.MayPanic, err)
+					e.specError("%s: panicclass %s: %v", e.Key, mp, err)
 				}
 			}
 		}
